@@ -11,6 +11,7 @@ import Pyab.Generated.LexRules
 import Pyab.Generated.LRTables
 import Pyab.Generated.Config
 import Pyab.Generated.Pipeline
+import Pyab.Spec.Unparse
 open Lean Pyab
 
 namespace Drv
@@ -235,6 +236,9 @@ def handle (j : Json) : Except String Json := do
       pure (Json.mkObj [
         ("toks", exceptJ (fun (l : List Token) => Json.arr (l.map tokJ).toArray) lexR),
         ("ast", exceptJ expJ astR),
+        ("canon", match astR with
+          | .ok e => if e.wf then Json.arr ((Spec.tokensOfExperiment e).map tokJ).toArray else Json.null
+          | .error _ => Json.null),
         ("gen", gen false),
         ("genx", gen true),
         ("compile", match comp with | .ok _ => Json.str "ok" | .error e => errJ e),
